@@ -61,7 +61,7 @@ def _static(repo):
 
 _static.needs_repo = True
 
-cfg("C01", assumptions=[ILAWS, VALID_GROUP, A_ENT, A_HKDF, "A-ae-empty: arbitrary_element(b'') is defined for the group (ground-checked for the shipped sets in C03/C18)"],
+cfg("C01", assumptions=[ILAWS, VALID_GROUP, A_ENT, A_HKDF, "the Lean identity spake2_agree holds in any Z-module: the order-q subgroup of (Z/p)* with a*b mod p and a^(n mod q) is one by Lean smul_add/smul_mul/smul_mul_distrib/order_*_closed; the Ed25519 L-torsion is one by M-edgroup (T2, cited: associativity of the Edwards law)", "A-ae-empty: arbitrary_element(b'') is defined for the group (ground-checked for the shipped sets in C03/C18)"],
     extra=extra(lean_theorems("spake2_agree", "smul_add", "smul_mul", "smul_mul_distrib", "order_mul_closed", "order_smul_closed")))
 cfg("C02", assumptions=[ILAWS, M_SHA, A_ENT],
     not_decided=["'keys differ' as an absolute statement needs collision resistance of SHA-256 (M-sha)",
